@@ -2816,9 +2816,12 @@ class AggregateBase(UnitsManaged, Saveable, OpenSystem):
                     Ndim = HH.dim
                     re = numpy.zeros(Ndim-start, dtype=numpy.float64)
                     # we need to subtract reorganization energies
+                    # (the bath belongs to the electronic state 
+                    # of the given, possibly vibronic, state)
                     for i in range(n1ex):
                         re[i] = \
-                        self.sbi.get_reorganization_energy(i)
+                        self.sbi.get_reorganization_energy(
+                                                self.elinds[start+i]-1)
                 else:
                     HH = relaxation_hamiltonian
                     Ndim = HH.dim
